@@ -133,6 +133,9 @@ class Contract:
     kind: str = "function"  # 'function' | 'race' | 'lemma'
     ghost_params: dict = field(default_factory=dict)
     decreases: str | None = None  # termination measure of a recursive lemma function
+    after_assign: dict = field(default_factory=dict)  # local name -> [(label, expr)] proved right after it is assigned
+    skip_cases: list = field(default_factory=list)  # case labels whose preconditions are contradictory by construction
+    float_err: bool = False  # scalar float arithmetic under the relative-error model fl(a op b) = (a op b)(1+e), |e| <= 2^-53
     no_unfold: bool = False  # do not emit the one-step unfolding of sum specs (consumers reason through contracts/lemmas)
     no_lemma_axioms: bool = False  # set on the lemma's own proof (no circularity)
     build: object = None  # lemma: callable(verifier) -> (obligations, status)
